@@ -144,6 +144,10 @@ class Ctx:
         if getattr(self, "_stage", None):
             self.extra.setdefault("stages_s", {})[self._stage[0]] = round(now - self._stage[1], 1)
         self._stage = (name, now)
+        if os.environ.get("NV_DEBUG_MEM"):
+            import resource
+            print("STAGE %s at %.0fs, peak RSS of the main process %d MB" % (name, now - self.t0 if hasattr(self, "t0") else 0,
+                                                                              resource.getrusage(resource.RUSAGE_SELF).ru_maxrss // 1024), flush=True)
 
     def note(self, msg):
         self.notes.append(msg)
